@@ -10,6 +10,7 @@ import (
 	"context"
 	"errors"
 	"fmt"
+	stdlog "log"
 	"os"
 	"os/exec"
 	"reflect"
@@ -42,7 +43,10 @@ func (w *lvlWriter) WriteLevel(l zerolog.Level, p []byte) (int, error) {
 }
 
 type call struct {
-	Entry   string `json:"entry"` // trace debug info warn error fatal panic log withlevel
+	// trace debug info warn error fatal panic log withlevel; and the complete calls that hand the caller no event:
+	// print printf println (Logger.Print..., debug level), write fprintf stdlog (Logger.Write, directly, through
+	// fmt.Fprintf and through a standard library log.Logger built on the logger; no level)
+	Entry   string `json:"entry"`
 	Lvl     int    `json:"lvl"`
 	Discard bool   `json:"discard"`
 }
@@ -64,8 +68,10 @@ func (c call) coq() string {
 		e = "EPanic"
 	case "fatal":
 		e = "EFatal"
-	case "log":
-		e = "ELog"
+	case "log", "write", "fprintf", "stdlog":
+		e = "ELog" // Logger.Write is l.Log()...Msg(line)
+	case "print", "printf", "println":
+		e = "EDebug" // Logger.Print is l.Debug() ... Msg(fmt.Sprint(v...)) when enabled
 	default:
 		e = "(EWithLevel " + CoqZ(int64(c.Lvl)) + ")"
 	}
@@ -123,6 +129,24 @@ func doCall(l *zerolog.Logger, w *lvlWriter, c call) (obs callObs) {
 		e = l.Panic()
 	case "log":
 		e = l.Log()
+	case "print":
+		l.Print("m")
+		return
+	case "printf":
+		l.Printf("%s", "m")
+		return
+	case "println":
+		l.Println("m")
+		return
+	case "write":
+		l.Write([]byte("m\n"))
+		return
+	case "fprintf":
+		fmt.Fprintf(l, "%s\n", "m")
+		return
+	case "stdlog":
+		stdlog.New(l, "", 0).Print("m")
+		return
 	default:
 		e = l.WithLevel(zerolog.Level(c.Lvl))
 	}
@@ -472,7 +496,7 @@ func runChild(mode string) (int, string) {
 var gateLevels = []int{-128, -2, -1, 0, 1, 3, 5, 6, 7, 8, 127}
 
 func runC04(c *Ctx) {
-	c.Res.Rule = "gate rows: (logger level, global level, optional BasicSampler, DisableSampling) x calls through every entry point (all 256 levels via WithLevel, the named level methods, Panic under recover, with and without Discard); history rows: every ordered pair of 14 calls (Panic() written / filtered / discarded, WithLevel(Panic/Fatal), custom levels, discarded events) back to back on one goroutine x 12 gates, each call judged whatever preceded it, and Fatal() after such a history in a child; 19 ways of obtaining a logger that filters everything (Nop(), zerolog.Ctx / log.Ctx / hlog.FromRequest of a context without logger with DefaultContextLogger unset or disabled, copies and derivations of that logger, a stored Level(Disabled) logger, Logger{}, the global log.Logger) x 2 global levels: gate row, inert grid through the pointer handed out, Fatal() in a child; exhaustive Go-side table 256x256x256; every reflected *Event method on a nil event (2 argument variants); Fatal in a child process; Level String/ParseLevel on all 256 levels and hostile strings; MarshalText/UnmarshalText/ParseLevel on all 256 levels under 22 namings of the nine named levels (upper/mixed case, renamed, rotated and swapped default names, numbers as names, empty texts, blanks, non-ASCII; also namings that give several levels one text), each installed as a replaced LevelFieldMarshalFunc and through the Level*Value variables: the level must read back when the 256 texts are pairwise different up to case, otherwise the text must read back as a level with that text; ParseLevel under each ASCII naming on its names, their case variants, the default names and numbers against Misc/LevelNames.v; the gate and inertness for 16 entry points while another goroutine alternates the global level between two values (4 logger levels x 12 ordered pairs, 4 emitting goroutines, runs prolonged until the emitters have seen the level change), judged on the events whose fate is the same under both values. Non-trivial gate row = has both written and filtered calls"
+	c.Res.Rule = "gate rows: (logger level, global level, optional BasicSampler, DisableSampling) x calls through every entry point (all 256 levels via WithLevel, the named level methods, Panic under recover, with and without Discard); history rows: every ordered pair of 14 calls (Panic() written / filtered / discarded, WithLevel(Panic/Fatal), custom levels, discarded events) back to back on one goroutine x 12 gates, each call judged whatever preceded it, and Fatal() after such a history in a child; 19 ways of obtaining a logger that filters everything (Nop(), zerolog.Ctx / log.Ctx / hlog.FromRequest of a context without logger with DefaultContextLogger unset or disabled, copies and derivations of that logger, a stored Level(Disabled) logger, Logger{}, the global log.Logger) x 2 global levels: gate row, inert grid through the pointer handed out, Fatal() in a child; exhaustive Go-side table 256x256x256; every reflected *Event method on a nil event (2 argument variants); Fatal in a child process; Level String/ParseLevel on all 256 levels and hostile strings; MarshalText/UnmarshalText/ParseLevel on all 256 levels under 22 namings of the nine named levels (upper/mixed case, renamed, rotated and swapped default names, numbers as names, empty texts, blanks, non-ASCII; also namings that give several levels one text), each installed as a replaced LevelFieldMarshalFunc and through the Level*Value variables: the level must read back when the 256 texts are pairwise different up to case, otherwise the text must read back as a level with that text; ParseLevel under each ASCII naming on its names, their case variants, the default names and numbers against Misc/LevelNames.v; the gate and inertness for 16 entry points while another goroutine alternates the global level between two values (4 logger levels x 12 ordered pairs, 4 emitting goroutines, runs prolonged until the emitters have seen the level change), judged on the events whose fate is the same under both values; the complete calls that hand the caller no event (Logger.Print / Printf / Println, Logger.Write directly, through fmt.Fprintf and through a standard library log.Logger) in every gate row and history, the rows with a BasicSampler judged call by call against an identically configured twin asked once per call that passes the levels; 12 stateful samplers (BasicSampler N = 0,1,2,3,5, BurstSampler with / without NextSampler and Period, LevelSampler over stateful samplers, every-other, fixed pattern), each wrapped in a recording sampler and as itself with a twin, x 7 (logger level, global level, writer) x DisableSampling x 43 complete calls (every entry point and finalizer, Discard, Panic() recovered, Print*, Write / io.WriteString / fmt.Fprint* on the logger as pointer and as value, log.New(logger) and log.SetOutput(logger), the package-level functions of zerolog/log) in list order and two shuffled orders: a call that passes the levels asks the sampler exactly once, with its level, and is written iff that verdict admits it, any other call does not ask it; rounds of concurrent setters (1-3 goroutines calling SetGlobalLevel, each sequence of 1-40 calls ending with the same level, against 1-2 goroutines calling DisableSampling, each sequence ending with the same value; 5 sets of levels incl. -128, 127 and Disabled, two more goroutines logging throughout): once all have returned, 14 complete calls through a logger with a rejecting and one with an every-other sampler are decided by exactly the final level and the final switch. Non-trivial gate row = has both written and filtered calls"
 	header := "From Coq Require Import String.\nFrom Verif Require Import Base.Prelude Misc.Level Misc.LevelNames Lts.Sampler Misc.Gate Harness.C04H.\nLocal Open Scope string_scope."
 	// gate rows are long terms (hundreds of calls each): small shards, evaluated in parallel
 	openShards := func(limit int) { c.OpenShards(header, "c04_case * c04_obs", "mismatches c04_run c04_eqb", limit) }
@@ -489,6 +513,11 @@ func runC04(c *Ctx) {
 	for _, l := range []int{-1, 0, 4, 5, 6, 8} {
 		calls = append(calls, call{Entry: "withlevel", Lvl: l, Discard: true})
 	}
+	// the complete calls that hand the caller no event, between calls that do (so that a stateful sampler meets
+	// them in different states)
+	for _, e := range []string{"print", "write", "info", "printf", "stdlog", "println", "fprintf", "debug", "write", "log", "print"} {
+		calls = append(calls, call{Entry: e})
+	}
 	rows := 0
 	emitRow := func(g gateCfg, cs []call) {
 		obs := runRow(g, cs)
@@ -498,6 +527,10 @@ func runC04(c *Ctx) {
 		}
 		term := fmt.Sprintf("(CGate %s %s, OGate %s)", g.coq(), CoqList(xs), obsCoq(obs))
 		wr, fl := false, false
+		var oracle *zerolog.BasicSampler
+		if g.BasicN > 0 && !g.Disabled && g.Source == "" {
+			oracle = &zerolog.BasicSampler{N: g.BasicN}
+		}
 		for i, o := range obs {
 			if len(o.Writes) > 0 {
 				wr = true
@@ -526,10 +559,22 @@ func runC04(c *Ctx) {
 				lvl = 3
 			case "panic":
 				lvl = 5
-			case "log":
+			case "log", "write", "fprintf", "stdlog":
 				lvl = 6
+			case "print", "printf", "println":
+				lvl = 0
 			}
 			pass := g.HasWriter && lvl >= g.Level && lvl >= g.Global && !(cl.Entry == "withlevel" && lvl == 7)
+			if oracle != nil {
+				// a stateful sampler: an identically configured twin is asked once per call that passes the
+				// levels; the call is written iff the twin admits it
+				admitted := pass && oracle.Sample(zerolog.Level(lvl))
+				want := admitted && !cl.Discard
+				if (len(o.Writes) == 1) != want || len(o.Writes) > 1 {
+					c.Violate(Violation{Key: "gate-wrong", Monitor: "gate-iff-sampled", Desc: fmt.Sprintf("logger level %d, global %d, BasicSampler{N: %d} (one consultation per call that passes the levels, %d calls before this one): %s(%d) discard=%v wrote %v, want written=%v", g.Level, g.Global, g.BasicN, i, cl.Entry, lvl, cl.Discard, o.Writes, want),
+						Case: cse, Observed: o.Writes, Expected: want})
+				}
+			}
 			if g.BasicN == 0 || g.Disabled {
 				want := pass && !cl.Discard
 				if (len(o.Writes) == 1) != want || len(o.Writes) > 1 {
@@ -739,4 +784,8 @@ func runC04(c *Ctx) {
 	// customised level names (more.go)
 	raceGlobalLevel(c)
 	customLevelNames(c)
+	// (j) stateful samplers behind every complete logging call (sampled.go); (k) the gate after concurrent
+	// SetGlobalLevel / DisableSampling calls have all returned (setters.go)
+	statefulSamplerSweep(c)
+	raceGlobalSetters(c)
 }
